@@ -118,3 +118,41 @@ def short(path):
 def fn_key(body):
     """Function path without lifetime noise, used in violation keys."""
     return body.path.replace("::<'_>", "").replace("<'_>", "")
+
+
+def decode_bytes(s):
+    """Inverse of the extractor's byte-string escaping (printable ASCII kept, \\xNN otherwise)."""
+    out = bytearray()
+    i = 0
+    while i < len(s):
+        if s[i] == "\\" and s[i + 1:i + 2] == "x":
+            out.append(int(s[i + 2:i + 4], 16))
+            i += 4
+        else:
+            out.append(ord(s[i]))
+            i += 1
+    return bytes(out)
+
+
+def errno_of_origin(o):
+    """errno number named by a constant origin: libc::EXXX integer, or a rustix::io::Errno constant
+    (stored as the negated value in a u16)."""
+    if o.kind != "const":
+        return None
+    c = o.op.const
+    ty = c.get("ty", "")
+    if "rustix::io::Errno" in ty:
+        if "u" in c:
+            v = c["u"]
+        else:
+            b = c.get("bytes")
+            if b is None:
+                return None
+            raw = decode_bytes(b)
+            if len(raw) != 2:
+                return None
+            v = raw[0] | (raw[1] << 8)
+        return (0x10000 - v) & 0xffff
+    if "i" in c:
+        return c["i"]
+    return None
